@@ -146,8 +146,10 @@ class ClientTransport(object):
 
     def write(self, data):
         c = self.conn
-        if self.disconnected or self.disconnecting:
+        if self.disconnected:
             return
+        # (as twisted.internet.abstract.FileDescriptor: data written after loseConnection() but before the
+        # connection has actually closed is still buffered and flushed before the close)
         if c.write_raises:
             c.write_raises -= 1
             c.net.fault("write_raises")
@@ -172,10 +174,9 @@ class ClientTransport(object):
         c.net.sim.mark("c_lose", c.label)
         c.client_closed_by = "client"
         c.reading = False
-        c.c2s.close()  # FIN travels after pending bytes
         lo, hi = c.net.close_lat
         d = lo + c.rng.random() * (hi - lo) if hi > 0 else 0.0
-        c.net.sim.after(d, c._client_lost, terror.ConnectionDone())
+        c.net.sim.after(d, c._client_close_done)
 
     def abortConnection(self):
         c = self.conn
@@ -293,6 +294,13 @@ class Conn(object):
         self._client_lost(terror.ConnectionDone())
         # the client side is gone; nothing more will be read by the server either
         self.c2s.kill()
+
+    def _client_close_done(self):
+        """The write buffer has drained: FIN goes out after everything written so far, the client side is gone."""
+        if self.client_lost:
+            return
+        self.c2s.close()
+        self._client_lost(terror.ConnectionDone())
 
     def _client_lost(self, exc):
         if self.client_lost:
